@@ -837,6 +837,10 @@ class ParallelProcess(Process):
         # Only end once.
         if self._ended:
             return
+        if self._pending_command:
+            # Collect the result of any command that is still in flight
+            # so that the child is free to receive the end command.
+            self.get_command_result()
         self.send_command('end')
         if self.profile:
             stats = pstats.Stats()
